@@ -122,6 +122,36 @@ def check(rep, F, tier, replay=None):
     rep.floor("certificate tables extracted", 4, len(tables))
     from ruleutil import ord_eq_rule
     ord_eq_rule(rep, F)
+    # DEP-verbatim: an explicit deposit / refund is stored as given
+    import fieldflow as ff_
+    rep.rule("DEP-verbatim", "every constructor of a certificate that carries an explicit deposit / refund (a field `coin` or `deposit`) stores the amount it was given unchanged: the stored operand passes through no filtering or mapping call (Option::filter / map / and_then / take_if, is_zero-driven choices) - an explicit amount of 0 is an amount, not 'absent' (absent means: charge the key_deposit parameter)")
+    n_dv = 0
+    for adt_, a_ in sorted(F.adts.items()):
+        if "protocol_types::certificates::" not in adt_ or a_["kind"] != "struct":
+            continue
+        idxs_ = [(i_, f_["name"]) for i_, f_ in enumerate(a_["variants"][0]["fields"]) if f_["name"] in ("coin", "deposit") and ("BigNum" in f_["ty"] or "Coin" in f_["ty"])]
+        if not idxs_:
+            continue
+        for fid_, fn_ in F.fns.items():
+            if "/tests/" in fn_["file"] or F.is_derived(fid_) or "/serialization/" in fn_["file"] or "Deserialize" in (fn_.get("impl_trait") or ""):
+                continue
+            org_ = None
+            for bb_ in fn_["bbs"]:
+                if bb_["c"]:
+                    continue
+                for st_ in bb_["st"]:
+                    if st_[1] == "=" and st_[3][0] == "agg" and st_[3][2] == adt_:
+                        org_ = org_ or ff_.Origins(F, fid_)
+                        for i_, nm_ in idxs_:
+                            if i_ >= len(st_[3][4]):
+                                continue
+                            n_dv += 1
+                            rep.inst("DEP-verbatim")
+                            o_ = org_.of_operand(st_[3][4][i_])
+                            badc = sorted({x.split("@")[0][5:] for x in o_ if x.startswith("call:") and x.split("@")[0].rsplit("::", 1)[-1] in ("filter", "map", "and_then", "take_if", "xor", "or", "unwrap_or", "unwrap_or_default", "is_zero", "then", "then_some")})
+                            if badc and any(x.startswith("arg:") for x in o_):
+                                rep.violation("DEP-verbatim", "%s|%s" % (F.key(fid_), nm_), "%s stores the explicit amount `%s` after passing it through %s: an explicit refund / deposit of 0 becomes 'no amount', the certificate turns into its legacy form (different tag) and both get_implicit_input / get_deposit helpers and the builder then charge the key_deposit parameter instead of 0" % (F.key(fid_), nm_, ", ".join(b.rsplit("::", 2)[-2] + "::" + b.rsplit("::", 1)[-1] for b in badc)), {})
+    rep.floor("constructions of certificates with an explicit amount", 6, n_dv)
     return rep.finish(EXPLANATION, ["the ledger table in tables/c20_ledger.json is a correct transcription of the Conway rules", "the explicit-amount fields are named `coin`/`deposit` (resolved field names, checked by the compiler)"], ["rustc HIR/typeck + MIR (csl-facts)", "tables/c20_ledger.json", "tables/mustflow.json"])
 
 
